@@ -78,9 +78,15 @@ def _worker_init(pid):
         _PROP.worker_init()
 
 
+_WSEQ = 0
+
+
 def _worker_run(args):
+    global _WSEQ
     idx, state = args
     t0 = time.time()
+    wseq = _WSEQ
+    _WSEQ += 1
     try:
         res = _PROP.execute(state)
     except Exception as e:  # harness error: never silently dropped
@@ -93,6 +99,8 @@ def _worker_run(args):
         }
     res["idx"] = idx
     res["wall"] = time.time() - t0
+    res["wpid"] = os.getpid()
+    res["wseq"] = wseq
     return res
 
 
@@ -185,6 +193,7 @@ def run_check(pid, tier="quick", seed=0, workers=None, replay=None, only=None):
         for v in r.get("violations", []):
             v = dict(v)
             v["state"] = st
+            v["_idx"] = r["idx"]
             violations.append(v)
         nt = r.get("nontrivial", False)
         nontrivial += int(nt) if not isinstance(nt, bool) else (1 if nt else 0)
@@ -204,6 +213,12 @@ def run_check(pid, tier="quick", seed=0, workers=None, replay=None, only=None):
     if hasattr(prop, "finalize"):
         for v in prop.finalize([(states[r["idx"]], r) for r in completed]):
             violations.append(v)
+
+    # order in which each worker process executed its states (module-level state of the library can leak between executions)
+    per_worker = {}
+    for r in sorted(completed, key=lambda r: (r.get("wpid", 0), r.get("wseq", 0))):
+        per_worker.setdefault(r.get("wpid", 0), []).append(r["idx"])
+    pos = {i: (w, k) for w, lst in per_worker.items() for k, i in enumerate(lst)}
 
     known = load_known()
     exit_code = 0
@@ -249,12 +264,21 @@ def run_check(pid, tier="quick", seed=0, workers=None, replay=None, only=None):
             conf = ""
             if n_reported < 3 and os.environ.get("VERIF_NO_CONFIRM") != "1":
                 ok = confirm_in_subprocess(pid, path)
+                if ok is False and v.get("_idx") in pos:
+                    # the state passes alone: replay it after the states the same worker process had executed before it
+                    w, k = pos[v["_idx"]]
+                    hist = [states[i] for i in per_worker[w][:k]]
+                    hist = minimise_history(pid, path, hist)
+                    if hist is not None:
+                        conf = f" confirmed-in-fresh-process-after-a-history-of-{len(hist)}-earlier-executions (depends on state that survives between executions in one process)"
+                        ok = True
                 if ok is False:
-                    print(f"NONDETERMINISM property={pid} replay={path} (violation did not reproduce in a fresh process)")
+                    print(f"NONDETERMINISM property={pid} replay={path} (violation did not reproduce in a fresh process, neither alone nor after the executions that preceded it in its worker)")
                     exit_code = max(exit_code, 2)
                     n_reported += 1
                     continue
-                conf = " confirmed-in-fresh-process" if ok else ""
+                if not conf:
+                    conf = " confirmed-in-fresh-process" if ok else ""
             print(f"VIOLATION property={pid} replay={path} :: {v.get('msg','')[:300]} [{len(vs)} states]{conf}")
             exit_code = max(exit_code, 1)
         n_reported += 1
@@ -355,12 +379,60 @@ def confirm_in_subprocess(pid, path):
     return None
 
 
+def _with_history(path, hist):
+    with open(path) as f:
+        rep = json.load(f)
+    rep["history"] = hist
+    with open(path, "w") as f:
+        json.dump(rep, f, indent=1, default=_json_default)
+
+
+def minimise_history(pid, path, hist, budget=14):
+    """Find a short list of earlier executions after which the state of `path` fails in a fresh process.
+
+    Returns the (possibly shortened) history written into the replay file, or None if even the full history does not reproduce.
+    """
+    if not hist:
+        return None
+    _with_history(path, hist)
+    if confirm_in_subprocess(pid, path) is not True:
+        _with_history(path, [])
+        return None
+    # greedy halving (ddmin-lite): keep a half if the failure still reproduces with it
+    cur = hist
+    tries = 0
+    chunk = max(1, len(cur) // 2)
+    while chunk >= 1 and tries < budget and len(cur) > 1:
+        shrunk = False
+        for start in range(0, len(cur), chunk):
+            cand = cur[:start] + cur[start + chunk :]
+            if not cand:
+                continue
+            tries += 1
+            _with_history(path, cand)
+            if confirm_in_subprocess(pid, path) is True:
+                cur = cand
+                shrunk = True
+                break
+            if tries >= budget:
+                break
+        if not shrunk:
+            chunk //= 2
+    _with_history(path, cur)
+    return cur
+
+
 def run_replay(prop, path):
     with open(path) as f:
         rep = json.load(f)
     state = rep["state"]
     if hasattr(prop, "worker_init"):
         prop.worker_init()
+    for h in rep.get("history", []):
+        try:
+            prop.execute(h)  # earlier executions in the same process; their own verdicts are not the point here
+        except Exception:
+            pass
     res = prop.execute(state)
     vs = res.get("violations", [])
     if hasattr(prop, "finalize") and not vs and rep.get("fp", {}).get("finalize"):
